@@ -76,3 +76,35 @@ package dyncrc16
 //@   hyp lo <= m && m <= hi && hi < 1<<62
 //@   hyp Crcfold(Crcfold(s, a, lo, m), a, m, hi) == Crcfold(s, a, lo, hi)
 //@   concl Crcfold(Crcfold(s, a, lo, m), a, m, hi+1) == Crcfold(s, a, lo, hi+1)
+
+//@@ ---- the Hash16 interface as seen by package fit ----
+//@@ The running sum of a Hash16 is the value of the crc16 it points to; the
+//@@ interface contracts are justified by the subtype obligations below.
+
+//@ spec GhostSum(h Hash16) uint16 := uint16(*h.(*crc16))
+//@ pred IsCrc16(h Hash16) := typeis[*crc16](h)
+
+//@ func New() (r Hash16)
+//@   props C14 C04
+//@   ensures [fresh] fresh(r) && IsCrc16(r)
+//@   ensures [zero] GhostSum(r) == 0
+//@   assigns nothing
+
+//@ func (h Hash16) Write(data []byte) (n int, err error)
+//@   props C14 C04
+//@   requires IsCrc16(h)
+//@   ensures [fold] GhostSum(h) == Crcfold(old(GhostSum(h)), data, 0, len(data))
+//@   ensures [len] n == len(data) && err == nil
+//@   assigns GhostSum(h)
+
+//@ func (h Hash16) Sum16() (r uint16)
+//@   props C14 C04
+//@   requires IsCrc16(h)
+//@   ensures [state] r == GhostSum(h)
+//@   assigns nothing
+
+//@ func (h Hash16) Reset()
+//@   props C14 C04
+//@   requires IsCrc16(h)
+//@   ensures [zero] GhostSum(h) == 0
+//@   assigns GhostSum(h)
